@@ -473,6 +473,55 @@ Proof.
    eexists; split; [left; reflexivity|]; rewrite with_refresh_id, with_refresh_jkt, with_refresh_x5t; cbn; auto).
 Qed.
 
+(* jwt-bearer: the client is the authenticated one or - nobody named, anonymous use allowed - the
+   anonymous client; ValidateBinding is run for that client *)
+Lemma run_jwt_bearer_client w cr st :
+  run_seq (jwt_bearer_client w cr) st =
+  (st, match authn w st cr with
+       | Some c => Some c
+       | None => if andb (is_nil (cr_id cr)) (negb (cf_jwt_bearer_authn_required (w_cfg w)))
+                 then Some (anonymous_client (w_cfg w)) else None end).
+Proof.
+  unfold jwt_bearer_client. rewrite run_seq_bind, run_authenticated. destruct (authn w st cr); cbn; auto.
+  destruct (_ && _)%bool; reflexivity.
+Qed.
+Lemma jwt_bearer_grant_success w n now r st st' t :
+  run_seq (jwt_bearer_grant w n now r) st = (st', OTokens t) ->
+  exists c, (authn w st (t_cred r) = Some c \/
+             (authn w st (t_cred r) = None /\ c = anonymous_client (w_cfg w) /\
+              cr_id (t_cred r) = 0 /\ cf_jwt_bearer_authn_required (w_cfg w) = false)) /\
+    validate_binding (w_cfg w) c (t_bind r) no_opts = None /\
+    issued (w_cfg w) (t_bind r) n st' t.
+Proof.
+  unfold jwt_bearer_grant. intros H.
+  destruct (negb (has_grant GJwtBearer (cf_grants (w_cfg w)))); [discriminate|].
+  rewrite run_seq_bind, run_jwt_bearer_client in H.
+  assert (X : exists c, (match authn w st (t_cred r) with
+       | Some c => Some c
+       | None => if andb (is_nil (cr_id (t_cred r))) (negb (cf_jwt_bearer_authn_required (w_cfg w)))
+                 then Some (anonymous_client (w_cfg w)) else None end) = Some c /\
+       (authn w st (t_cred r) = Some c \/
+        (authn w st (t_cred r) = None /\ c = anonymous_client (w_cfg w) /\
+         cr_id (t_cred r) = 0 /\ cf_jwt_bearer_authn_required (w_cfg w) = false))).
+  { destruct (authn w st (t_cred r)) as [c|] eqn:Ea.
+    - exists c. auto.
+    - destruct (is_nil (cr_id (t_cred r))) eqn:E1; cbn in *; [|discriminate].
+      destruct (cf_jwt_bearer_authn_required (w_cfg w)) eqn:E2; cbn in *; [discriminate|].
+      exists (anonymous_client (w_cfg w)). split; auto. right. repeat split; auto. apply N.eqb_eq in E1. exact E1. }
+  destruct X as (c & Ec & Hc). rewrite Ec in H. clear Ec.
+  destruct (negb (has_grant GJwtBearer (c_grants c))); [discriminate|].
+  destruct (validate_binding (w_cfg w) c (t_bind r) no_opts) eqn:Ev; [discriminate|].
+  destruct (t_assertion r) as [| |sub]; try discriminate;
+  (destruct (negb (are_scopes_allowed (c_scopes c) (cf_scopes (w_cfg w)) (t_scope r))); [discriminate|];
+   destruct (negb (validate_resources (w_cfg w) (cf_resources (w_cfg w)) (t_resources r))); [discriminate|]);
+  try discriminate.
+  destruct (hg_result (t_hg r)); [discriminate|].
+  destruct (make_token n c GJwtBearer) as [tv tid].
+  cbn in H. inversion H; subst st' t; clear H.
+  exists c. split; [exact Hc|]. repeat split; auto; cbn; rewrite ?with_refresh_jkt, ?with_refresh_x5t; auto.
+  eexists; split; [left; reflexivity|]. rewrite with_refresh_id, with_refresh_jkt, with_refresh_x5t. cbn. auto.
+Qed.
+
 (* the three issuing grants of the token endpoint, uniformly *)
 Definition issuing (h : world -> nat -> Z -> treq -> prog out) : Prop :=
   h = cc_grant \/ h = code_grant \/ h = ciba_grant.
@@ -501,16 +550,16 @@ Lemma set_pop_x5t_nonzero cfg b :
   set_pop_x5t cfg b <> 0 -> cf_tls_binding_enabled cfg = true /\ set_pop_x5t cfg b = b_cert b.
 Proof. unfold set_pop_x5t. destruct (cf_tls_binding_enabled cfg); [auto|congruence]. Qed.
 
-Lemma cnf_truthful_lemma h w n now r st st' t :
-  issuing h -> run_seq (h w n now r) st = (st', OTokens t) ->
+Lemma cnf_truthful_core cfg c b o n st' t :
+  validate_binding cfg c b o = None -> issued cfg b n st' t ->
   (tr_jkt t <> 0 ->
-     exists p k, b_dpop (t_bind r) = Some p /\ dp_jwk p = JwkPublic k /\ dp_signer p = k /\
+     exists p k, b_dpop b = Some p /\ dp_jwk p = JwkPublic k /\ dp_signer p = k /\
                  validate_jwt jwt_lifetime jwt_leeway p 0 0 = None /\ tr_jkt t = k) /\
-  (tr_x5t t <> 0 -> tr_x5t t = b_cert (t_bind r)) /\
+  (tr_x5t t <> 0 -> tr_x5t t = b_cert b) /\
   tr_dpop t = negb (is_nil (tr_jkt t)) /\
   exists g, In g (st_gsess st') /\ g_id g = mint n KGrantId /\ g_jkt g = tr_jkt t /\ g_x5t g = tr_x5t t.
 Proof.
-  intros Hi H. destruct (issuing_success _ _ _ _ _ _ _ _ Hi H) as (c & o & Ha & Hv & (Hj & Hx & Hd & Hg)).
+  intros Hv (Hj & Hx & Hd & Hg).
   apply vb_split in Hv. destruct Hv as (Hvd & Hvt & Hvr).
   repeat split; auto.
   - intros Hn. rewrite Hj in Hn. destruct (set_pop_jkt_nonzero _ _ Hn) as (He & p & Hp & Hs).
@@ -520,6 +569,26 @@ Proof.
     + eapply accepted_weaken; eauto.
     + rewrite Hj, Hs. exact H3.
   - intros Hn. rewrite Hx in Hn |- *. apply set_pop_x5t_nonzero in Hn. tauto.
+Qed.
+
+(* the four grants that write a new grant session: the three above and jwt-bearer *)
+Definition issuing4 (h : world -> nat -> Z -> treq -> prog out) : Prop :=
+  h = cc_grant \/ h = code_grant \/ h = ciba_grant \/ h = jwt_bearer_grant.
+
+Lemma cnf_truthful_lemma h w n now r st st' t :
+  issuing4 h -> run_seq (h w n now r) st = (st', OTokens t) ->
+  (tr_jkt t <> 0 ->
+     exists p k, b_dpop (t_bind r) = Some p /\ dp_jwk p = JwkPublic k /\ dp_signer p = k /\
+                 validate_jwt jwt_lifetime jwt_leeway p 0 0 = None /\ tr_jkt t = k) /\
+  (tr_x5t t <> 0 -> tr_x5t t = b_cert (t_bind r)) /\
+  tr_dpop t = negb (is_nil (tr_jkt t)) /\
+  exists g, In g (st_gsess st') /\ g_id g = mint n KGrantId /\ g_jkt g = tr_jkt t /\ g_x5t g = tr_x5t t.
+Proof.
+  intros Hi H. destruct Hi as [Hi|[Hi|[Hi|Hi]]].
+  - destruct (issuing_success _ _ _ _ _ _ _ _ (or_introl Hi) H) as (c & o & _ & Hv & Hiss). eapply cnf_truthful_core; eauto.
+  - destruct (issuing_success _ _ _ _ _ _ _ _ (or_intror (or_introl Hi)) H) as (c & o & _ & Hv & Hiss). eapply cnf_truthful_core; eauto.
+  - destruct (issuing_success _ _ _ _ _ _ _ _ (or_intror (or_intror Hi)) H) as (c & o & _ & Hv & Hiss). eapply cnf_truthful_core; eauto.
+  - subst h. destruct (jwt_bearer_grant_success _ _ _ _ _ _ _ H) as (c & _ & Hv & Hiss). eapply cnf_truthful_core; eauto.
 Qed.
 
 (* ------------------------------------------------------------------ *)
@@ -570,6 +639,34 @@ Proof.
   unfold req_en in *. unfold set_defaults. destruct (cf_jarm_enabled _); cbn; exact H0.
 Qed.
 
+Lemma required_binding_core cfg c b o n st' t :
+  req_en cfg -> bind_wf b -> validate_binding cfg c b o = None -> issued cfg b n st' t ->
+    (cf_dpop_required cfg = true \/ (cf_dpop_enabled cfg = true /\ c_dpop_required c = true) ->
+       tr_jkt t <> 0 /\ tr_dpop t = true) /\
+    (cf_tls_binding_required cfg = true \/ (cf_tls_binding_enabled cfg = true /\ c_tls_required c = true) ->
+       tr_x5t t <> 0) /\
+    (cf_binding_required cfg = true -> tr_jkt t <> 0 \/ tr_x5t t <> 0).
+Proof.
+  intros [Hre1 Hre2] Hwf Hv (Hj & Hx & Hd & _).
+  apply vb_split in Hv. destruct Hv as (Hvd & Hvt & Hvr).
+  assert (Hbound : cf_dpop_enabled cfg = true -> forall p, b_dpop b = Some p -> tr_jkt t <> 0).
+  { intros He p Hp. pose proof (vb_dpop_some _ _ _ _ _ Hvd He Hp) as Hv.
+    destruct (accepted_key _ _ _ _ _ Hv) as (k & H1 & H2 & H3 & _).
+    rewrite Hj. unfold set_pop_jkt. rewrite Hp, He, H3. eapply Hwf; eauto. }
+  split; [|split].
+  - intros Hr.
+    assert (He : cf_dpop_enabled cfg = true) by (destruct Hr as [Hr|[Hr _]]; auto).
+    destruct (vb_dpop_required _ _ _ _ Hvd He) as (p & Hp); [destruct Hr as [Hr|[_ Hr]]; auto|].
+    pose proof (Hbound He p Hp) as Hn. split; auto. rewrite Hd. apply negb_true_iff. apply is_nil_false. exact Hn.
+  - intros Hr.
+    assert (He : cf_tls_binding_enabled cfg = true) by (destruct Hr as [Hr|[Hr _]]; auto).
+    pose proof (vb_tls_required _ _ _ _ Hvt He) as Hc.
+    rewrite Hx. unfold set_pop_x5t. rewrite He. apply Hc. destruct Hr as [Hr|[_ Hr]]; auto.
+  - intros Hr. destruct (vb_required _ _ Hvr Hr) as [(He & p & Hp)|(He & Hc)].
+    + left. eapply Hbound; eauto.
+    + right. rewrite Hx. unfold set_pop_x5t. rewrite He. exact Hc.
+Qed.
+
 Lemma required_binding_lemma h w n now r st st' t :
   issuing h -> req_en (w_cfg w) -> bind_wf (t_bind r) ->
   run_seq (h w n now r) st = (st', OTokens t) ->
@@ -580,25 +677,28 @@ Lemma required_binding_lemma h w n now r st st' t :
        tr_x5t t <> 0) /\
     (cf_binding_required (w_cfg w) = true -> tr_jkt t <> 0 \/ tr_x5t t <> 0).
 Proof.
-  intros Hi [Hre1 Hre2] Hwf H.
-  destruct (issuing_success _ _ _ _ _ _ _ _ Hi H) as (c & o & Ha & Hv & (Hj & Hx & Hd & _)).
-  apply vb_split in Hv. destruct Hv as (Hvd & Hvt & Hvr).
-  assert (Hbound : cf_dpop_enabled (w_cfg w) = true -> forall p, b_dpop (t_bind r) = Some p -> tr_jkt t <> 0).
-  { intros He p Hp. pose proof (vb_dpop_some _ _ _ _ _ Hvd He Hp) as Hv.
-    destruct (accepted_key _ _ _ _ _ Hv) as (k & H1 & H2 & H3 & _).
-    rewrite Hj. unfold set_pop_jkt. rewrite Hp, He, H3. eapply Hwf; eauto. }
-  exists c. split; auto. split; [|split].
-  - intros Hr.
-    assert (He : cf_dpop_enabled (w_cfg w) = true) by (destruct Hr as [Hr|[Hr _]]; auto).
-    destruct (vb_dpop_required _ _ _ _ Hvd He) as (p & Hp); [destruct Hr as [Hr|[_ Hr]]; auto|].
-    pose proof (Hbound He p Hp) as Hn. split; auto. rewrite Hd. apply negb_true_iff. apply is_nil_false. exact Hn.
-  - intros Hr.
-    assert (He : cf_tls_binding_enabled (w_cfg w) = true) by (destruct Hr as [Hr|[Hr _]]; auto).
-    pose proof (vb_tls_required _ _ _ _ Hvt He) as Hc.
-    rewrite Hx. unfold set_pop_x5t. rewrite He. apply Hc. destruct Hr as [Hr|[_ Hr]]; auto.
-  - intros Hr. destruct (vb_required _ _ Hvr Hr) as [(He & p & Hp)|(He & Hc)].
-    + left. eapply Hbound; eauto.
-    + right. rewrite Hx. unfold set_pop_x5t. rewrite He. exact Hc.
+  intros Hi Hre Hwf H.
+  destruct (issuing_success _ _ _ _ _ _ _ _ Hi H) as (c & o & Ha & Hv & Hiss).
+  exists c. split; [exact Ha|]. eapply required_binding_core; eauto.
+Qed.
+
+(* jwt-bearer: the client whose registration counts is the authenticated one; a request served for the
+   anonymous client is bound by the server's requirements alone (the anonymous client requires nothing) *)
+Lemma required_binding_jwt_bearer w n now r st st' t :
+  req_en (w_cfg w) -> bind_wf (t_bind r) ->
+  run_seq (jwt_bearer_grant w n now r) st = (st', OTokens t) ->
+  exists c, (authn w st (t_cred r) = Some c \/
+             (authn w st (t_cred r) = None /\ c = anonymous_client (w_cfg w) /\
+              cr_id (t_cred r) = 0 /\ cf_jwt_bearer_authn_required (w_cfg w) = false)) /\
+    (cf_dpop_required (w_cfg w) = true \/ (cf_dpop_enabled (w_cfg w) = true /\ c_dpop_required c = true) ->
+       tr_jkt t <> 0 /\ tr_dpop t = true) /\
+    (cf_tls_binding_required (w_cfg w) = true \/ (cf_tls_binding_enabled (w_cfg w) = true /\ c_tls_required c = true) ->
+       tr_x5t t <> 0) /\
+    (cf_binding_required (w_cfg w) = true -> tr_jkt t <> 0 \/ tr_x5t t <> 0).
+Proof.
+  intros Hre Hwf H.
+  destruct (jwt_bearer_grant_success _ _ _ _ _ _ _ H) as (c & Ha & Hv & Hiss).
+  exists c. split; [exact Ha|]. eapply required_binding_core; eauto.
 Qed.
 
 (* ------------------------------------------------------------------ *)
@@ -689,4 +789,4 @@ Definition ex_session : asession :=
     (mkParams 0 "https://c3.example/cb" "" "code" "openid profile" "" "" PkEmpty "" ex_key "" 0 "" []) [].
 Definition ex_store : store := mkStore [] [ex_session] [ex_grant].
 Definition ex_treq (cr : cred) (b : bind_in) : treq :=
-  mkTReq cr b "" ex_code "https://c3.example/cb" ex_rt PkEmpty 0 HgOk BaApprove [].
+  mkTReq cr b "" ex_code "https://c3.example/cb" ex_rt PkEmpty 0 HgOk BaApprove [] AsNone.
